@@ -979,6 +979,22 @@ impl AArch64Instruction {
     // architecture manual: https://developer.arm.com/documentation/ddi0487/latest/
     pub fn write_to_value(self, extracted_value: u64, negative: bool, dest: &mut [u8]) {
         let mut mask;
+        // Bits of the instruction that belong to the immediate field. They are cleared before the
+        // new value is ORed in, so that a non-zero initial immediate doesn't leak into the result.
+        let field: u32 = match self {
+            AArch64Instruction::Adr => 0x60ff_ffe0,
+            AArch64Instruction::Movkz => 0x001f_ffe0,
+            // imm16 and opc<1> (MOVN vs. MOVZ)
+            AArch64Instruction::Movnz => 0x401f_ffe0,
+            AArch64Instruction::Ldr | AArch64Instruction::Bcond => 0x00ff_ffe0,
+            AArch64Instruction::LdrRegister
+            | AArch64Instruction::Add
+            | AArch64Instruction::LdSt => 0x003f_fc00,
+            AArch64Instruction::TstBr => 0x0007_ffe0,
+            AArch64Instruction::JumpCall => 0x03ff_ffff,
+            AArch64Instruction::MachOLow12 => 0,
+        };
+        and_from_slice(dest, &(!field).to_le_bytes());
         match self {
             // C6.2.13
             AArch64Instruction::Adr => {
@@ -991,17 +1007,14 @@ impl AArch64Instruction {
             }
             // C6.2.253, C6.2.254
             AArch64Instruction::Movnz => {
-                // Clear all bits except rd[4:0] and hw[22:21]
-                and_from_slice(dest, &0x0060_001F_u32.to_le_bytes());
                 let mut value = extracted_value as i64;
                 mask = 0u32;
                 if negative {
+                    // MOVN: opc<1> = 0 (already cleared)
                     value = !value;
-                    // MOVN opcode: sf=1, opc=00, fixed=100101
-                    mask |= 0x9280_0000;
                 } else {
-                    // MOVZ opcode: sf=1, opc=10, fixed=100101
-                    mask |= 0xd280_0000;
+                    // MOVZ: opc<1> = 1
+                    mask |= 0x4000_0000;
                 }
                 mask |= ((value as u64).extract_bit_range(0..16) as u32) << 5;
             }
@@ -1030,7 +1043,7 @@ impl AArch64Instruction {
             }
             // C6.2.33
             AArch64Instruction::JumpCall => {
-                mask = extracted_value as u32;
+                mask = (extracted_value as u32) & 0x03ff_ffff;
             }
             AArch64Instruction::MachOLow12 => {
                 // The relocation value is scaled by the access size for ADD, LDR and STR
